@@ -236,6 +236,12 @@ def _message(u, idx, doc):
     if ids != "none":          # "none": no Message-ID header at all (drafts, old archives); "same": one id repeated (a mailbox holding copies)
         m["Message-ID"] = "<vf-1@example.org>" if ids == "same" else f"<vf-{idx + 1}@example.org>"
     m.set_content("\n".join(plain_lines(u["blocks"])) + "\n")
+    if (doc.get("_opts") or {}).get("forward"):
+        # another mail attached as message/rfc822: its text belongs to the attachment, not to this message
+        inner = EmailMessage()
+        inner["Subject"], inner["From"], inner["To"] = "forwarded", "x@example.org", "y@example.org"
+        inner.set_content(f"forwarded text ZX0FW{idx:02d} of the attached mail\n")
+        m.add_attachment(inner)
     return m
 
 
